@@ -472,6 +472,12 @@ def _case_rejections(run, rng, quick, case_seed, icase):
             run.count(f"accepted:{name}")
         except Exception as e:  # noqa
             run.count(f"rejected:{name}:{type(e).__name__}")
+            if name == "complex-factor":
+                # the property quantifies over the term lists of C01, complex factors included; the tree code refuses them with an
+                # explicit "complex operator not supported yet": a recorded limitation (known finding), not a silent pass
+                run.violation("ttno:complex-operator:not-supported",
+                              dict(terms=[("X", str(d0), "1j")], error=repr(e)[:200],
+                                   what="TTNO construction refuses operators with complex factors / complex local matrices"))
     return case
 
 
